@@ -646,7 +646,7 @@ def _():
     import json as _json
     path = os.path.join(os.path.dirname(os.path.dirname(os.path.abspath(__file__))), "certs", "primes.json")
     certs = _json.load(open(path))
-    want = dict(secp_P=SECP_P, secp_N=SECP_N, bn_p=P_BN, bn_r=R_BN, bls_r=R_BLS)
+    want = dict(secp_P=SECP_P, secp_N=SECP_N, bn_p=P_BN, bn_r=R_BN, bls_r=R_BLS, bls_p=P_BLS)
     ok = True
     done = []
     for k, n in want.items():
@@ -656,8 +656,6 @@ def _():
         if good:
             done.append(k)
     extra = []
-    if "bls_p" in certs and int(certs["bls_p"]["n"]) == P_BLS and _verify_pocklington(certs["bls_p"]):
-        extra.append("bls_p")
     # the constants of the modules are these numbers
     s = M("py_ecc.secp256k1.secp256k1")
     ok = ok and s.P == SECP_P and s.N == SECP_N
@@ -665,6 +663,4 @@ def _():
                        ("py_ecc.bls12_381.bls12_381_curve", P_BLS, R_BLS), ("py_ecc.optimized_bls12_381.optimized_curve", P_BLS, R_BLS)):
         m_ = M(mn)
         ok = ok and m_.field_modulus == p_ and m_.curve_order == r_
-    ok = ok and _strong_prp(P_BLS)
-    return ok, ("Pocklington certificates verified for " + ", ".join(done + extra) +
-                ("; the BLS12-381 field prime is a strong probable prime to 40 bases (no certificate)" if not extra else ""))
+    return ok, "Pocklington certificates verified for " + ", ".join(done + extra)
